@@ -23,7 +23,10 @@ pub trait FromPrimitive: Sized {
 }
 pub trait Float: Copy + PartialEq + PartialOrd + Zero + One + Add<Output = Self> + Sub<Output = Self> + Mul<Output = Self> + Div<Output = Self> + Neg<Output = Self> {
     spec fn val(self) -> real;
-    fn ln(self) -> (r: Self) ensures r.val() == ln_r(self.val());
+    // `fin()`: the value is an ordinary (finite, non-NaN) number.  Only the unit `entropy` distinguishes it (there the
+    // point of the explicit zero branches is that 0 * ln 0 is not a number); the other units read every value as a real.
+    spec fn fin(self) -> bool;
+    fn ln(self) -> (r: Self) ensures self.fin() && self.val() > 0real ==> r.fin() && r.val() == ln_r(self.val());
     fn sqrt(self) -> (r: Self) ensures r.val() == sqrt_r(self.val());
     fn exp(self) -> (r: Self) ensures r.val() == exp_r(self.val());
     fn recip(self) -> (r: Self) ensures self.val() != 0real ==> r.val() == 1real / self.val();
@@ -61,6 +64,26 @@ pub open spec fn real_from_usize<A: Float + FromPrimitive>() -> bool {
     forall|n: usize| (#[trigger] A::from_usize_spec(n)) matches Some(v) && v.val() == n as real
 }
 pub open spec fn real_model<A: Float>() -> bool { real_ops::<A>() && real_cmp::<A>() }
+// the same reading restricted to ordinary numbers: an operation on finite operands is the exact real operation and
+// gives a finite result (no overflow); nothing is known about an operation with a NaN / infinite operand, about
+// division by zero or about ln of a non-positive number
+pub open spec fn fin_model<A: Float>() -> bool {
+    &&& A::obeys_add_spec() && A::obeys_sub_spec() && A::obeys_mul_spec() && A::obeys_div_spec() && A::obeys_neg_spec()
+    &&& forall|a: A, b: A| #[trigger] a.add_req(b)
+    &&& forall|a: A, b: A| a.fin() && b.fin() ==> (#[trigger] a.add_spec(b)).fin() && a.add_spec(b).val() == a.val() + b.val()
+    &&& forall|a: A, b: A| #[trigger] a.sub_req(b)
+    &&& forall|a: A, b: A| a.fin() && b.fin() ==> (#[trigger] a.sub_spec(b)).fin() && a.sub_spec(b).val() == a.val() - b.val()
+    &&& forall|a: A, b: A| #[trigger] a.mul_req(b)
+    &&& forall|a: A, b: A| a.fin() && b.fin() ==> (#[trigger] a.mul_spec(b)).fin() && a.mul_spec(b).val() == a.val() * b.val()
+    &&& forall|a: A, b: A| #[trigger] a.div_req(b)
+    &&& forall|a: A, b: A| a.fin() && b.fin() && b.val() != 0real ==> (#[trigger] a.div_spec(b)).fin() && a.div_spec(b).val() == a.val() / b.val()
+    &&& forall|a: A| #[trigger] a.neg_req()
+    &&& forall|a: A| a.fin() ==> (#[trigger] a.neg_spec()).fin() && a.neg_spec().val() == -a.val()
+    &&& A::zero_spec().fin() && A::zero_spec().val() == 0real
+    &&& A::obeys_eq_spec()
+    &&& forall|a: A, b: A| a.fin() && b.fin() ==> #[trigger] a.eq_spec(&b) == (a.val() == b.val())
+}
+pub open spec fn all_fin<A: Float>(s: Seq<A>) -> bool { forall|k: int| 0 <= k < s.len() ==> (#[trigger] s[k]).fin() }
 
 // small ring facts over the reals, each proved on its own (the default solver configuration does not expand products)
 pub proof fn rl_dist(c: real, u: real, v: real) ensures c * (u + v) == c * u + c * v, c * (u - v) == c * u - c * v, (u + v) * c == u * c + v * c, (u - v) * c == u * c - v * c { assert(c * (u + v) == c * u + c * v && c * (u - v) == c * u - c * v && (u + v) * c == u * c + v * c && (u - v) * c == u * c - v * c) by(nonlinear_arith); }
@@ -73,6 +96,7 @@ pub proof fn rl_div_nonneg(s: real, d: real) requires s >= 0real, d > 0real ensu
 pub proof fn rl_sq_diff(x: real, m: real) ensures (x - m) * (x - m) == x * x - 2real * (m * x) + m * m { assert((x - m) * (x - m) == x * x - 2real * (m * x) + m * m) by(nonlinear_arith); }
 pub proof fn rl_zero(a: real) ensures 0real * a == 0real, a * 0real == 0real, a != 0real ==> 0real / a == 0real { assert(0real * a == 0real && a * 0real == 0real) by(nonlinear_arith); if a != 0real { assert(0real / a == 0real) by(nonlinear_arith) requires a != 0real; } }
 pub proof fn rl_sq_nonzero(a: real) requires a != 0real ensures a * a != 0real { assert(a * a != 0real) by(nonlinear_arith) requires a != 0real; }
+pub proof fn rl_div_pos(a: real, b: real) requires a > 0real, b > 0real ensures a / b > 0real { assert(a / b > 0real) by(nonlinear_arith) requires a > 0real, b > 0real; }
 pub proof fn rl_congr(a: real, b: real, c: real) requires a == b ensures a * c == b * c, c * a == c * b {}
 
 
@@ -308,8 +332,11 @@ impl<A, D: Dimension> ArrayN<A, D> {
     #[verifier::external_body]
     pub fn sum(&self) -> (r: A)
         where A: Float
-        requires real_model::<A>()
-        ensures r.val() == rsum(vals(self@))
+        requires real_model::<A>() || fin_model::<A>()
+        ensures
+            real_model::<A>() ==> r.val() == rsum(vals(self@)),
+            // on ordinary numbers: the exact sum, again an ordinary number
+            fin_model::<A>() && all_fin(self@) ==> r.fin() && r.val() == rsum(vals(self@)),
     { unimplemented!() }
     // `mapv(f)` / `map(f)`: a new array of the same shape, f applied to every element (each once)
     #[verifier::external_body]
